@@ -32,7 +32,10 @@ namespace internal
 
 		Code operator()(Iterator iter) const noexcept
 		{
-			return static_cast<Code>(*iter);
+			typedef typename std::iterator_traits<Iterator>::value_type Value;
+			static const Code signMask = static_cast<Code>(std::is_signed<Value>::value
+				? Code{1} << (sizeof(Code) * 8 - 1) : Code{0});
+			return static_cast<Code>(static_cast<Code>(*iter) ^ signMask);
 		}
 	};
 
